@@ -493,6 +493,20 @@ func (qi *QuotaInfo) addPodIfNotPresent(pod *v1.Pod) {
 	qi.PodCache[key] = NewPodInfo(pod)
 }
 
+// updatePodIfPresent replaces the cached object (and its requests) of a pod by its latest version,
+// keeping the assigned flag.
+func (qi *QuotaInfo) updatePodIfPresent(pod *v1.Pod) {
+	qi.lock.Lock()
+	defer qi.lock.Unlock()
+
+	key := generatePodCacheKey(pod)
+	if podInfo, exist := qi.PodCache[key]; exist {
+		newPodInfo := NewPodInfo(pod)
+		newPodInfo.isAssigned = podInfo.isAssigned
+		qi.PodCache[key] = newPodInfo
+	}
+}
+
 func (qi *QuotaInfo) removePodIfPresent(pod *v1.Pod) {
 	qi.lock.Lock()
 	defer qi.lock.Unlock()
